@@ -113,9 +113,6 @@ func (f *Filler) fill(v reflect.Value, path string) {
 		}
 		v.Set(s)
 	case reflect.Ptr:
-		if f.Zero && t.Elem().Kind() != reflect.Struct {
-			return
-		}
 		p := reflect.New(t.Elem())
 		f.fill(p.Elem(), path)
 		v.Set(p)
